@@ -48,6 +48,18 @@ def _cases(tier, rng):
     yield {'kind': 'mux', 'term': [['group_by', ['big_of'], [['count', True]]]], 'items': [5, 7, 5, 7, 9]}
     yield {'kind': 'mux', 'term': [['group_by', ['mod', 2], [['group_by', ['mod', 3], [['to_list']]]]]], 'items': list(range(12))}
     yield {'kind': 'mux', 'term': [['group_by', ['key_of'], [['to_list']]]], 'items': []}
+    # key values that are different but have equal hashes in CPython (hash(-1) == hash(-2); ints are hashed modulo 2**61-1;
+    # 0, 0.0-free: only ints here), alone and inside tuples: one group per distinct key VALUE
+    COLL = [-1, -2, 0, 2 ** 61 - 1, 2 ** 61, 1, 2 ** 62 - 2, -(2 ** 61)]
+    for kf in (['id'], ['pair_self']):
+        for inner in ([['to_list']], [['count', True]]):
+            yield {'kind': 'mux', 'term': [['group_by', kf, inner]], 'items': [-1, -2, -1, 0, 2 ** 61 - 1, -2, 1, 2 ** 61, 0]}
+    for _ in range({'quick': 40, 'thorough': 300, 'search': 30}[tier]):
+        items = [rng.choice(COLL) for _ in range(rng.choice([2, 5, 9, 16]))]
+        term = [['group_by', rng.choice([['id'], ['pair_self']]), rng.choice([[['to_list']], [['count', False]], [['last']]])]]
+        if rng.random() < 0.4:
+            term = wrap_in(rng, term)
+        yield {'kind': 'mux', 'term': term, 'items': items}
     n = {'quick': 1500, 'thorough': 10000, 'search': 600}[tier]
     for _ in range(n):
         kf = rng.choice(KEYS)
@@ -88,4 +100,7 @@ def cases(tier, rng):
 
 
 def oracle(case, r):
-    return muxprop.prelude_violation(case, r) or _oracle(case, r)
+    v = muxprop.prelude_violation(case, r)
+    if v or case.get('share'):
+        return v        # the shared-operator variant wraps the pipeline in a tee_map: judged against separately built operators only
+    return _oracle(case, r)
